@@ -433,7 +433,7 @@ def _orders_body(fam, n1, n2, pvn):
 def second_pool(fam):
     if hlib.TIER != "thorough":
         return []
-    return POOL_NAMES if fam.name == "JSON" else (CORE if fam.name == "JSONAttr" else [])
+    return CORE if fam.name in ("JSON", "JSONAttr", "Zarr") else []
 
 
 def orders(h1: int, h2: int, pv: int) -> bool:
@@ -755,7 +755,7 @@ FUNCTIONS = [
 BOUNDS = {
     "engine_B": "ALL concrete types and instances (uninterpreted type sort with the real classes' subclass axioms; per-instance unknowns for anything but isinstance); NUMPY as in this environment (False: numpy is not importable here); memo pre-state arbitrary subject to the invariant => histories of any length",
     "engine_A_values": "two instances of one type with symbolic value: float (reals + nan/inf), int, str (len <= 2), bool, list/tuple/dict of 0..2 elements, a float subclass, a user sequence; all module-level resolvers",
-    "engine_A_orders": {"families": ORDER_FAMS, "pool": POOL_NAMES, "history": "quick: one warm-up value, every (warm-up, probe) pair of the pool; thorough: a second warm-up value from the full pool for the JSON family and from the core pool " + str(CORE) + " for JSONAttr", "probes": PROBES},
+    "engine_A_orders": {"families": ORDER_FAMS, "pool": POOL_NAMES, "history": "quick: one warm-up value, every (warm-up, probe) pair of the pool; thorough: a second warm-up value from the core pool " + str(CORE) + " for the JSON, JSONAttr and Zarr families", "probes": PROBES},
 }
 ASSUMPTIONS = [
     "Engine B: isinstance(o, C) depends on type(o) only (no __instancecheck__ overrides that look at the instance); identifier callables are pure",
